@@ -422,6 +422,7 @@ impl DocErrorsJob {
         let part = spec.params.get("part").and_then(|v| v.as_u64()).unwrap_or(0) as usize;
         let parts = spec.params.get("parts").and_then(|v| v.as_u64()).unwrap_or(1) as usize;
         let mut cases = vec![];
+        let short = crate::docsig::short_circuiting();
         for (ci, c) in calls.iter().enumerate() {
             if ci % parts != part || crate::docsig::ERROR_HANDLERS.contains(&c.name.as_str()) {
                 continue;
@@ -432,6 +433,24 @@ impl DocErrorsJob {
                 let call = format!("{}({})", c.name, args.join(", "));
                 let text = format!("{}\nfn main()->str{{ get_error({call}).or(\"<value>\") }}\n", crate::docsig::PRELUDE);
                 cases.push((format!("{} arg{}", c.label, i + 1), text, i + 1));
+            }
+            // an erroring argument next to an EMPTY collection argument: nothing to do is no reason not to look
+            // (except where the documentation says the function is short-circuiting: an absent optional is such a case)
+            let file = c.label.split(':').nth(1).unwrap_or("").to_string();
+            let documented_short_circuit = short.contains(&(file, c.name.clone()));
+            for i in 0..(if documented_short_circuit { 0 } else { c.args.len() }) {
+                for j in 0..c.args.len() {
+                    if i == j {
+                        continue;
+                    }
+                    let Some(empty) = c.arg_types.get(j).and_then(crate::docsig::empty_of) else { continue };
+                    let mut args = c.args.clone();
+                    args[i] = format!("if(false, {}, error(\"E{}\"))", c.args[i], i + 1);
+                    args[j] = empty;
+                    let call = format!("{}({})", c.name, args.join(", "));
+                    let text = format!("{}\nfn main()->str{{ get_error({call}).or(\"<value>\") }}\n", crate::docsig::PRELUDE);
+                    cases.push((format!("{} arg{}+empty-arg{}", c.label, i + 1, j + 1), text, i + 1));
+                }
             }
             // two erroring arguments: the leftmost one is the result
             for i in 0..c.args.len() {
